@@ -152,24 +152,29 @@ pub fn selftest() -> i32 {
     }
     // determinism of the batch machinery: same seed, different worker counts, two processes
     let exe = std::env::current_exe().unwrap();
-    let mut digests = Vec::new();
-    for workers in ["1", "16", "5"] {
-        let out = std::process::Command::new(&exe)
-            .args(["check", "C03", "quick"])
-            .env("VERIF_RUNS", "240")
-            .env("VERIF_WORKERS", workers)
-            .env("VERIF_DIR", std::env::temp_dir().join(format!("verif-selftest-{}", std::process::id())))
-            .output()
-            .unwrap();
-        let s = String::from_utf8_lossy(&out.stdout).to_string();
-        let d = s.lines().find_map(|l| l.split("digest ").nth(1).map(|x| x.trim().to_string()));
-        println!("  determinism: C03 x240 with {} workers -> digest {:?}", workers, d);
-        digests.push(d);
-    }
-    let _ = std::fs::remove_dir_all(std::env::temp_dir().join(format!("verif-selftest-{}", std::process::id())));
-    if digests.iter().any(|d| d.is_none()) || digests.windows(2).any(|w| w[0] != w[1]) {
-        println!("SELFTEST FAILED: batch digests differ");
-        return 1;
+    // (C07 contains the witness of K7, which leaves its worker process dirty: the worker retires
+    // and the result must still not depend on how runs are spread over processes)
+    for (check, runs) in [("C03", "240"), ("C07", "400"), ("C06", "100"), ("C10", "400"), ("C18", "120")] {
+        let mut digests = Vec::new();
+        for workers in ["1", "16", "5"] {
+            let out = std::process::Command::new(&exe)
+                .args(["check", check, "quick"])
+                .env("VERIF_RUNS", runs)
+                .env("VERIF_WORKERS", workers)
+                .env("VERIF_NO_SHRINK", "1")
+                .env("VERIF_DIR", std::env::temp_dir().join(format!("verif-selftest-{}", std::process::id())))
+                .output()
+                .unwrap();
+            let s = String::from_utf8_lossy(&out.stdout).to_string();
+            let d = s.lines().find_map(|l| l.split("digest ").nth(1).map(|x| x.trim().to_string()));
+            println!("  determinism: {} x{} with {} workers -> digest {:?}", check, runs, workers, d);
+            digests.push(d);
+        }
+        let _ = std::fs::remove_dir_all(std::env::temp_dir().join(format!("verif-selftest-{}", std::process::id())));
+        if digests.iter().any(|d| d.is_none()) || digests.windows(2).any(|w| w[0] != w[1]) {
+            println!("SELFTEST FAILED: batch digests of {} differ", check);
+            return 1;
+        }
     }
     println!("selftest ok");
     0
